@@ -321,6 +321,7 @@ func TestC07(t *testing.T) {
 	for _, k := range []string{"default", "custom", "immutable", "methods", "unescape"} {
 		lns[k] = mk(k)
 	}
+	respDeadline := 15 * time.Second
 	var n, nHostileArg, nMalformed, nHostileVariants int
 	readCases(t, "VERIF_CASES", func(line []byte) {
 		var cs struct {
@@ -363,13 +364,14 @@ func TestC07(t *testing.T) {
 				t.Fatal(err)
 			}
 			defer conn.Close()
-			_ = conn.SetDeadline(time.Now().Add(5 * time.Second))
+			_ = conn.SetDeadline(time.Now().Add(respDeadline)) // generous: only a wedged server runs into it
 			go func() { _, _ = conn.Write(req) }() // large requests must not block on the pipe
 			br := bufio.NewReader(conn)
 			resp, err := readStrict(br)
 			runtime.ReadMemStats(&ms2)
 			if err != nil {
 				fail("no-response", statuses, err.Error())
+				respDeadline = time.Second // a server that wedges on many inputs must not make the check crawl
 				return
 			}
 			if resp.Err != "" {
